@@ -331,7 +331,9 @@ def unlinkat (st : FS) (p : Bytes) (removedir : Bool) : FS × Out Unit :=
 def unlinkatN (d : Node) (name : Name) (removedir : Bool) : Node × Out Unit :=
   match d with
   | .dir es =>
-    match assoc es name with
+    -- `.` / `..` as the last component: plain unlink answers EISDIR (rmdir would answer EINVAL / ENOTEMPTY: never asked)
+    if isDots name then (d, .error (if removedir then .unmodelled else .os EISDIR))
+    else match assoc es name with
     | none => (d, .error (.os ENOENT))
     | some (.dir ces) =>
       if !removedir then (d, .error (.os EISDIR))
@@ -371,6 +373,14 @@ def Node.dtype : Node → Nat
 /-- the entries a directory stream returns (order is the file system's; here: list order) -/
 def dirRecs (es : List (Name × Node)) : List Rec :=
   ⟨0, 0, DT_DIR, [DOT]⟩ :: ⟨0, 0, DT_DIR, [DOT, DOT]⟩ :: es.map (fun e => ⟨0, 0, e.2.dtype, e.1⟩)
+
+abbrev DT_UNKNOWN : Nat := 0
+
+/-- WHAT `getdents64` puts into `d_type` is a property of the FILE SYSTEM the directory lives on (environment):
+`exact = true` — the entry's type (ext4, tmpfs, btrfs, …); `exact = false` — DT_UNKNOWN for every entry, `.` and `..`
+included (ext2/3/4 made without the `filetype` feature, XFS ftype=0, minix, NFSv3 without READDIRPLUS, many FUSE servers) -/
+def dirRecsOn (exact : Bool) (es : List (Name × Node)) : List Rec :=
+  if exact then dirRecs es else (dirRecs es).map (fun r => { r with dtype := DT_UNKNOWN })
 
 /-- d_reclen = align8(offsetof(d_name) + strlen + 1) -/
 def reclen (r : Rec) : Nat := (19 + r.name.length + 1 + 7) / 8 * 8
@@ -752,6 +762,16 @@ def ReadDir.collect : Nat → ReadDir → Out (List (Nat × Name))
 def readDirAll (stream : List Rec) : Out (List (Nat × Name)) :=
   ReadDir.collect (stream.length + 1) (ReadDir.new (kernelDents 512 stream.length stream))
 
+/-- `tiny_std::fs::FileType` -/
+inductive FType where
+  | fifo | chr | dir | blk | reg | lnk | sock | unknown
+  deriving DecidableEq, Repr
+
+/-- `DirEntry::file_type`: the match on `d_type`; everything else, DT_UNKNOWN included, is `FileType::Unknown` -/
+def fileType (t : Nat) : FType :=
+  if t = DT_FIFO then .fifo else if t = DT_CHR then .chr else if t = DT_DIR then .dir else if t = DT_BLK then .blk
+  else if t = DT_REG then .reg else if t = DT_LNK then .lnk else if t = DT_SOCK then .sock else .unknown
+
 /-- `DirEntry::is_relative_reference` -/
 def isRelRef (name : Name) : Bool := name == [DOT] || name == [DOT, DOT]
 
@@ -763,7 +783,7 @@ is a snapshot taken when the directory is opened (only entries already returned 
 def removeEntries (recur : Node → Node × Out Unit) : List (Nat × Name) → Node → Node × Out Unit
   | [], d => (d, .ok ())
   | (t, name) :: ys, d =>
-    if t = DT_DIR then
+    if fileType t = .dir then                    -- `FileType::Directory == sub_dir.file_type()`
       if isRelRef name then removeEntries recur ys d
       else match d with
         | .dir es =>
@@ -781,14 +801,16 @@ def removeEntries (recur : Node → Node × Out Unit) : List (Nat × Name) → N
       | (d2, .ok ()) => removeEntries recur ys d2
       | (d2, .error e) => (d2, .error e)
 
-/-- `Directory::remove_all` on an open directory node (fuel = recursion depth available) -/
-def removeAllN : Nat → Node → Node × Out Unit
+/-- `Directory::remove_all` on an open directory node (fuel = recursion depth available) of a file system that does
+(`exact`) or does not fill in `d_type`.  On a DT_UNKNOWN mount no entry is `FileType::Directory`: every entry, `.`
+first, goes to the plain `unlinkat`. -/
+def removeAllN (exact : Bool) : Nat → Node → Node × Out Unit
   | 0, d => (d, .error .unmodelled)
   | fuel + 1, d =>
     match d with
     | .dir es =>
-      match readDirAll (dirRecs es) with
-      | .ok ys => removeEntries (removeAllN fuel) ys d
+      match readDirAll (dirRecsOn exact es) with
+      | .ok ys => removeEntries (removeAllN exact fuel) ys d
       | .error e => (d, .error e)
     | _ => (d, .error (.os ENOTDIR))     -- getdents on a non-directory
 
@@ -805,15 +827,18 @@ def depthL : List (Name × Node) → Nat
 end
 
 /-- `fs::remove_dir_all`: `Directory::open(path)`, `remove_all`, `remove_dir(path)` -/
-def removeDirAll (st : FS) (p : Bytes) : FS × Out Unit :=
+def removeDirAllOn (exact : Bool) (st : FS) (p : Bytes) : FS × Out Unit :=
   match openat st p (O_CLOEXEC ||| O_RDONLY) with
   | (st0, .error e) => (st0, .error e)
   | (st0, .ok h) =>
     match getAt st0.root h.loc with
     | none => (st0, .error .unmodelled)
     | some d =>
-      match removeAllN (depth d + 1) d with
+      match removeAllN exact (depth d + 1) d with
       | (d', .error e) => ({ st0 with root := setAt st0.root h.loc (some d') }, .error e)
       | (d', .ok ()) => unlinkat { st0 with root := setAt st0.root h.loc (some d') } p true
+
+/-- on a file system that fills in `d_type` -/
+def removeDirAll (st : FS) (p : Bytes) : FS × Out Unit := removeDirAllOn true st p
 
 end TinyVerif.Fs
